@@ -11,6 +11,7 @@
 #include <functional>
 #include <map>
 #include <memory>
+#include <unordered_set>
 #include "pvh.h"
 using namespace primitiv;
 using namespace pvh;
@@ -19,7 +20,7 @@ namespace F = primitiv::functions;
 static unsigned bits(float f) { unsigned u; std::memcpy(&u, &f, 4); return u; }
 static float fbits(const std::string &s) { unsigned u = static_cast<unsigned>(std::stoul(s, nullptr, 16)); float f; std::memcpy(&f, &u, 4); return f; }
 static std::vector<float> vec(const std::string &s) { std::vector<float> v; for (auto &t : split(s, ',')) v.push_back(fbits(t)); return v; }
-static std::string hex(float f) { char b[16]; std::snprintf(b, sizeof b, "%08x", bits(f)); return b; }
+static std::string hex(float f) { char b[16]; if (f != f) return "7fc00000"; std::snprintf(b, sizeof b, "%08x", bits(f)); return b; }
 static std::string pvec(const std::vector<float> &v) {
   if (v.empty()) return "-";
   std::string o; for (size_t i = 0; i < v.size(); ++i) { if (i) o += ','; o += hex(v[i]); } return o;
@@ -62,12 +63,22 @@ struct World {
   std::unique_ptr<Optimizer> opt;
   std::vector<std::unique_ptr<Parameter>> params;
   std::vector<int> reg;   // mirror of the registered set, in order of first successful add
+  // same insertions as Optimizer::params_, hence the same iteration order
+  std::unordered_set<Parameter *> mirror;
+  void sync() { for (int i : reg) mirror.insert(params[i].get()); }
+  std::string order() const {
+    std::string o;
+    for (Parameter *p : mirror)
+      for (size_t i = 0; i < params.size(); ++i)
+        if (params[i].get() == p) { if (!o.empty()) o += ','; o += std::to_string(i); }
+    return o.empty() ? "-" : o;
+  }
 };
 
 static std::string dump(const World &w, bool with_grad) {
   std::ostringstream o;
-  o << 'E' << w.opt->get_epoch() << " S" << hex(w.opt->get_learning_rate_scaling()) << ',' << hex(w.opt->get_weight_decay())
-    << ',' << hex(w.opt->get_gradient_clipping()) << " H" << pvec(hypers(*w.opt));
+  o << 'E' << w.opt->get_epoch() << " S=" << hex(w.opt->get_learning_rate_scaling()) << ',' << hex(w.opt->get_weight_decay())
+    << ',' << hex(w.opt->get_gradient_clipping()) << " H=" << pvec(hypers(*w.opt));
   for (size_t i = 0; i < w.params.size(); ++i) {
     const Parameter &p = *w.params[i];
     o << " P" << i << '[';
@@ -148,7 +159,6 @@ static std::string ckpt_dir() {
 static devices::Naive *g_dev0, *g_dev1;
 static devices::Eigen *g_dev2;
 
-static bool close_enough(const std::string &a, const std::string &b);
 
 static void apply(World &w, const std::vector<std::string> &t, std::vector<std::string> *out, const std::vector<std::vector<std::string>> &prefix);
 
@@ -176,6 +186,7 @@ static void resume(World &f, const World &src, const std::string &order, const s
     f.opt->load(of);
   }
   f.reg = src.reg;
+  f.sync();
 }
 
 static void apply(World &w, const std::vector<std::string> &t, std::vector<std::string> *out, const std::vector<std::vector<std::string>> &prefix) {
@@ -201,7 +212,8 @@ static void apply(World &w, const std::vector<std::string> &t, std::vector<std::
       p.stats(t[2]).reset_by_vector(vec(t.at(3))); });
   } else if (f == "add") {
     guarded("add", [&] { int i = std::stoi(t.at(1)); w.opt->add(*w.params.at(i));
-      if (std::find(w.reg.begin(), w.reg.end(), i) == w.reg.end()) w.reg.push_back(i); });
+      if (std::find(w.reg.begin(), w.reg.end(), i) == w.reg.end()) w.reg.push_back(i);
+      w.sync(); });
   } else if (f == "addm") {
     // a Model whose (sorted) names follow the order of the list
     std::vector<int> l; for (auto &s : split(t.at(1), ',')) l.push_back(std::stoi(s));
@@ -222,11 +234,13 @@ static void apply(World &w, const std::vector<std::string> &t, std::vector<std::
         if (!w.params[i]->valid() && w.kind != "sgd") break;
         w.reg.push_back(i);
       }
+      w.sync();
     } catch (std::exception &) { r = "addm other-exception "; }
     emit(r + dump(w, true));
   } else if (f == "upd") {
+    const std::string ord = w.order();
     try { w.opt->update(); } catch (Error &) { throw HaltCase{"upd err halt"}; }
-    emit("upd ok " + dump(w, true));
+    emit("upd ok order=" + ord + " " + dump(w, true));
   } else if (f == "reset") {
     try { w.opt->reset_gradients(); } catch (Error &) { throw HaltCase{"reset err halt"}; }
     emit("reset ok " + dump(w, true));
@@ -257,11 +271,12 @@ static void apply(World &w, const std::vector<std::string> &t, std::vector<std::
     const bool graph = f == "rung";
     auto train = [&](World &x, int t0, int m) { if (graph) train_graph(x, t0, m); else train_simple(x, t0, m); };
     if (!out) { train(w, 0, k + n); return; }   // replay of an earlier run: only its uninterrupted part
-    std::string us = "err", rs = "err";
+    std::string us = "err", rs = "err", ords = "ordU=" + w.order();
     // the interrupted run starts from an identical second world (the history replayed)
     World r0; r0.kind = w.kind; r0.dev = w.dev;
     try {
       build_prefix(r0, prefix);
+      ords += " ordR=" + r0.order();
       try { train(w, 0, k + n); us = dump(w, false); } catch (Error &) {}
       try {
         train(r0, 0, k);
@@ -276,37 +291,13 @@ static void apply(World &w, const std::vector<std::string> &t, std::vector<std::
         fr.dev = mode == "1" ? static_cast<Device *>(g_dev1) : mode == "2" ? static_cast<Device *>(g_dev2) : w.dev;
         resume(fr, r0, order, mf, of);
         ::unlink(mf); ::unlink(of);
+        ords += " ordF=" + fr.order();
         train(fr, k, n);
         rs = dump(fr, false);
       } catch (Error &) {}
     } catch (HaltCase &) {}
-    if (graph) {
-      bool same = mode == "2" ? close_enough(us, rs) : us == rs;
-      emit(same ? "rung same" : "rung DIFF U " + us + " R " + rs);
-    } else emit("run U " + us + " R " + rs);
+    emit(std::string(graph ? "rung " : "run ") + ords + " U " + us + " R " + rs);
   } else emit("badop");
-}
-
-// tolerance comparison of two dumps (only for the Naive -> Eigen graph runs)
-static bool close_enough(const std::string &a, const std::string &b) {
-  auto ta = tokens(a), tb = tokens(b);
-  if (ta.size() != tb.size()) return false;
-  for (size_t i = 0; i < ta.size(); ++i) {
-    if (ta[i] == tb[i]) continue;
-    // compare every 8-hex-digit group as a float
-    std::string x = ta[i], y = tb[i];
-    if (x.size() != y.size()) return false;
-    for (size_t p = 0; p < x.size();) {
-      bool hx = p + 8 <= x.size();
-      for (size_t q = p; hx && q < p + 8; ++q) hx = std::isxdigit(static_cast<unsigned char>(x[q])) && std::isxdigit(static_cast<unsigned char>(y[q]));
-      if (hx && (p + 8 == x.size() || !std::isxdigit(static_cast<unsigned char>(x[p + 8]))) && (p == 0 || !std::isalnum(static_cast<unsigned char>(x[p - 1])))) {
-        float fx = fbits(x.substr(p, 8)), fy = fbits(y.substr(p, 8));
-        if (!(std::fabs(fx - fy) <= 1e-5f * std::max(1.0f, std::max(std::fabs(fx), std::fabs(fy)))) && !(fx == fy)) return false;
-        p += 8;
-      } else { if (x[p] != y[p]) return false; ++p; }
-    }
-  }
-  return true;
 }
 
 int main() {
